@@ -78,6 +78,14 @@ class SeqCheck:
         if corpus:
             cstats, cd = seqsuite.run_files(ctx, seqrun, 'corpus', corpus); divs += cd
         stats, d2 = seqsuite.run(ctx, seqrun, self.suites(ctx)); divs += d2
+        if getattr(self, 'with_async', False):
+            # the async wrappers (incl. AsyncDetached) run the same synchronous core: part of this property's footprint
+            bindir, alog = ctx.build_harness(('asyncrun',))
+            if bindir is not None:
+                n = 500 if ctx.tier == 'quick' else 10000
+                astats, d3 = seqsuite.run(ctx, os.path.join(bindir, 'asyncrun'), [('arand', ['arand', ctx.seed, n, 20, 100])], mode='async')
+                divs += d3; stats.steps += astats.steps; stats.histories += astats.histories; stats.distinct |= astats.distinct
+                ctx.notes['async_suite'] = astats.summary()
         if self.extra: self.extra(ctx, seqrun, stats, divs)
         self.decide(ctx, divs, proof_broken, log)
         cov = {'evaluations': stats.steps, 'distinct_nontrivial': len(stats.distinct),
@@ -121,6 +129,8 @@ SEQ_TEXT = ('Theorems (Coq, all lengths / states / histories): the Model refines
 CHECKS = {}
 for pid, pred in (('C01', is_c01), ('C04', is_c04), ('C05', is_c05), ('C06', is_c06), ('C11', is_c11), ('C12', is_c12), ('C18', is_c18)):
     CHECKS[pid] = SeqCheck(pid, pred, SEQ_TEXT % pid)
+for pid in ('C06', 'C11', 'C12'):
+    CHECKS[pid].with_async = True   # anchors include the async wrappers / AsyncDetached
 
 
 class VariantCheck(SeqCheck):
@@ -136,6 +146,11 @@ class VariantCheck(SeqCheck):
         ok, log = ctx.check_proofs(self.propfiles)
         collect = []
         stats, divs = seqsuite.run(ctx, seqrun, self.suites(ctx), collect=collect)
+        bindir, alog = ctx.build_harness(('asyncrun',))
+        if bindir is not None:
+            astats, d3 = seqsuite.run(ctx, os.path.join(bindir, 'asyncrun'), [('arand', ['arand', ctx.seed, 600 if ctx.tier == 'quick' else 12000, 20, 100])], mode='async')
+            divs += d3; stats.steps += astats.steps; stats.histories += astats.histories; stats.distinct |= astats.distinct
+            ctx.notes['async_polled_form'] = astats.summary()
         groups = {}
         for header, cfg, ops, got in collect:
             m = re.match(r'# randv seed=(\d+) n=(\d+) variant=(\S+)', header)
@@ -276,3 +291,80 @@ LEDGER_TEXT = ('Theorems (Coq): conservation of owned values for every operation
                'per step, live objects compared at the end of each history; refinement Model ~ Spec as for C01.')
 CHECKS['C08'] = LedgerCheck('C08', is_ledger, LEDGER_TEXT)
 CHECKS['C09'] = LedgerCheck('C09', is_ledger, LEDGER_TEXT)
+
+
+# ------------------------------------------------------------------------------------------- async: C14, C15
+def field(line, name):
+    for part in line.split(' | '):
+        if part.startswith(name + '='): return part[len(name) + 1:].split(' ##')[0]
+    return None
+
+def is_c14(d):
+    return d.res(d.expected) != d.res(d.actual) or any(field(d.expected, f) != field(d.actual, f) for f in ('ix', 'pub', 'ev', 'alive', 'freed')) \
+        or d.expected.startswith('live=')
+def is_c15(d):
+    return field(d.expected, 'wk') != field(d.actual, 'wk')
+
+class AsyncCheck(SeqCheck):
+    def __init__(self, prop, pred, text, wake_oracle=False):
+        super().__init__(prop, pred, text)
+        self.wake_oracle = wake_oracle
+    def suites(self, ctx):
+        if ctx.tier == 'quick': return [('arand', ['arand', ctx.seed, 1500, 20, 100])]
+        return [('arand', ['arand', ctx.seed, 40000, 20, 160])]
+    def prepare(self, ctx):
+        bindir, log = ctx.build_harness(('asyncrun',))
+        if bindir is None:
+            ctx.violation('the harness does not build against the current /repo tree (tie broken)', '## cargo build failed\n' + log[-4000:], no_input=True)
+            return None
+        ok, log = ctx.build_model()
+        if not ok:
+            ctx.violation('the Coq model / extraction no longer builds', '## build log\n' + log[-4000:], no_input=True)
+            return None
+        return os.path.join(bindir, 'asyncrun')
+    def run(self, ctx):
+        runner = self.prepare(ctx)
+        if runner is None: return ctx.finish('proof', {'explanation': 'build failed'})
+        # C15(b) also needs the structural fact that nothing calls wake (regenerated from the source)
+        ok, log = ctx.check_proofs(self.propfiles)
+        satlog = []
+        stats, divs = seqsuite.run(ctx, runner, self.suites(ctx), mode='async', satlog=satlog)
+        extra = {}
+        if self.wake_oracle: extra = self.wake_check(ctx, satlog)
+        self.decide(ctx, divs, not ok, log)
+        cov = {'evaluations': stats.steps, 'distinct_nontrivial': len(stats.distinct),
+               'rule': 'one evaluation = one step of an async history (future created and polled once, kept future polled again / dropped, direct method, task switch) executed on the '
+                       'extracted Coq model (poll = two synchronous attempts with waker registration in between) and on the real async wrappers with per-(task, stage) counting wakers, '
+                       'compared line by line incl. the registered waker and the number of wake calls; distinct = distinct (observable state before, operation) pairs',
+               'samples': stats.samples, 'input_distribution': stats.summary(), 'traces_validated_against_impl': stats.histories,
+               'divergences': len(divs), 'exhaustive': False, 'explanation': self.text}
+        cov.update(extra)
+        return ctx.finish('proof', cov)
+    def wake_check(self, ctx, satlog):
+        """(b): whenever a kept future becomes satisfiable through another stage's operation, its task must have been woken."""
+        names = 'PWC'
+        prev = {}
+        inst = {}
+        pending_polls = 0
+        for header, cfg, ops, idx, sat, impl in satlog:
+            key = (header, cfg)
+            p = prev.get(key, ('---', 0)) if idx >= 0 else ('---', 0)
+            w = int(field(impl, 'wakes') or 0) if not impl.startswith('<missing') else 0
+            if impl.startswith('pending'): pending_polls += 1
+            for k in range(3):
+                if sat[k] == '1' and p[0][k] == '0' and idx >= 0:
+                    actor = stage_of(ops[idx]) or {'push': 'P', 'pushslice': 'P', 'pushclone': 'P', 'pop': 'C', 'popmove': 'C', 'copyitem': 'C', 'cloneitem': 'C',
+                                                   'copyslice': 'C', 'cloneslice': 'C'}.get(opname(ops[idx].replace('hold ', '')), '?')
+                    if w <= p[1]:
+                        inst.setdefault(f'no-wake/{names[k]}<-{actor}', []).append((header, cfg, ops[:idx + 1]))
+            prev[key] = (sat, w)
+        for key, lst in sorted(inst.items()):
+            if not ctx.known_finding(key, ''):
+                h, cfg, ops = min(lst, key=lambda x: len(x[2]))
+                ctx.violation(f'a task whose awaited operation became possible was not woken ({key})', '\n'.join([h, cfg] + ops) + f'\n## {key}: the kept future is satisfiable after the last step but no wake call was made\n')
+        return {'wake_instances': {k: len(v) for k, v in inst.items()}, 'pending_polls_observed': pending_polls}
+
+ASYNC_TEXT = ('Theorems (Coq): MRBFuture::poll modelled as two synchronous attempts with waker registration in between; poll_ready / poll_pending: the poll resolves with exactly the synchronous '
+              'result, otherwise Pending with no ledger event, the Spec state untouched and the polling task registered; tie: async histories on the real wrappers.')
+CHECKS['C14'] = AsyncCheck('C14', is_c14, ASYNC_TEXT)
+CHECKS['C15'] = AsyncCheck('C15', is_c15, ASYNC_TEXT + ' (b) "is woken" is refuted (C15_refuted, C15_never_woken): known finding F8.', wake_oracle=True)
